@@ -184,11 +184,17 @@ func genGemm(r *gen.R, validOnly bool) (mon.OpReq, Expect, bool) {
 		beta = pick()
 		req.Attrs = append(req.Attrs, mon.AttrF("beta", float32(beta)))
 	}
+	flag := func(on bool) int64 { // any non-zero value means "transposed"
+		if on && !validOnly && r.Chance(0.25) {
+			return int64(r.PickInt(2, -1, 255, 1<<31))
+		}
+		return b2i(on)
+	}
 	if transA || r.Chance(0.3) {
-		req.Attrs = append(req.Attrs, mon.AttrI("transA", b2i(transA)))
+		req.Attrs = append(req.Attrs, mon.AttrI("transA", flag(transA)))
 	}
 	if transB || r.Chance(0.3) {
-		req.Attrs = append(req.Attrs, mon.AttrI("transB", b2i(transB)))
+		req.Attrs = append(req.Attrs, mon.AttrI("transB", flag(transB)))
 	}
 	var c *ref.T
 	cm := r.Intn(8)
